@@ -10,7 +10,7 @@ func init() {
 	vHarnesses["VerifC09Canary"] = VerifC09Canary
 }
 
-var vC09Keys = [...]string{"a/b", "m~n", "", "é", "k"}
+var vC09Keys = [...]string{"a/b", "m~n", "a~1b", "", "é", "k"}
 
 func vKeyObj(nkeys int, inner int) jsonObject {
 	o := jsonObject{}
@@ -27,7 +27,7 @@ func vKeyObj(nkeys int, inner int) jsonObject {
 }
 
 func vC09Docs() (JsonNode, JsonNode) {
-	switch vChoice(vParam("FAMS", 4)) {
+	switch vChoice(vParam("FAMS", 5)) {
 	case 0:
 		n := vParam("N", 2)
 		return vNumArray(n), vNumArray(n)
@@ -36,8 +36,19 @@ func vC09Docs() (JsonNode, JsonNode) {
 		return vKeyObj(nk, 1), vKeyObj(nk, 1)
 	case 2:
 		return jsonArray{jsonObject{"a/b": vNumArray(2)}}, jsonArray{jsonObject{"a/b": vNumArray(2)}}
-	default:
+	case 3:
 		return vScalarOrVoid(), vScalarOrVoid()
+	default:
+		// an array member followed (in key order) by a scalar member that may come and go
+		n := vParam("N", 2)
+		a, b := jsonObject{"k": vNumArray(n)}, jsonObject{"k": vNumArray(n)}
+		if vChoice(2) == 1 {
+			a["z"] = vNum()
+		}
+		if vChoice(2) == 1 {
+			b["z"] = vNum()
+		}
+		return a, b
 	}
 }
 
